@@ -359,6 +359,50 @@ open_("F-C24-borders", "C24",
       {"nsheets": 2, "ops": [{"Border": [1, 3, 4, 2, 3, "{\"item\":{\"style\":\"dotted\",\"color\":\"#000000\"},\"type\":\"Bottom\"}"]}]},
       patterns=C24_PAT, avoid=CLEAN_C24)
 
+# ---------------------------------------------------------------- C05 / C06 (reference evaluator)
+def cells(nsheets, *cs): return {"nsheets": nsheets, "cells": [list(c) for c in cs]}
+
+fixed("FX-C06-intermediate-overflow", "C06", "dfa06e7",
+      "an overflow inside a larger expression was not an error: =(10^1000)>5 gave TRUE",
+      cells(1, (0, 1, 1, "=(10^1000)>5"), (0, 2, 1, "=LEN(10^1000)")))
+fixed("FX-C06-blank-reference-result", "C06", "c91a562",
+      "a formula showing 0 because it returns a blank reference was read as blank by formulas evaluated before it",
+      cells(2, (0, 2, 1, "=AVERAGE(Sheet2!E2:E3)"), (1, 2, 5, "=$D6"), (0, 4, 5, "=ISBLANK($E6)"), (0, 6, 5, "=E3")))
+fixed("FX-C06-tiny-comparison", "C06", "d18b20c",
+      "numbers below 2.2e-16 all compared equal: =1E-20>0 was FALSE",
+      cells(1, (0, 1, 1, "=1E-20>0"), (0, 2, 1, "=1E-17=2E-17")))
+RE_CATS = ["*"]
+open_("F-C06-minmax-value-arg", "C06",
+      "MIN and MAX ignore logical values and text typed directly into the argument list (=MAX(TRUE) is 0, =MIN(\"3\",5) is 5, =MIN(\"abc\",5) is 5 instead of #VALUE!)",
+      cells(1, (0, 1, 1, "=MAX(TRUE)")),
+      patterns=[{"check": "reference-value", "keys": ["minmax-value-arg"], "cats": RE_CATS}])
+open_("F-C06-number-text-precision", "C06",
+      "a number converted to text keeps 17 significant digits instead of 15 (=1/3&\"\" is 0.3333333333333333)",
+      cells(1, (0, 1, 1, "=1/3&\"\"")),
+      patterns=[{"check": "reference-value", "keys": ["number-text-precision"], "cats": RE_CATS}])
+open_("F-C06-negative-zero-text", "C06",
+      "negative zero converted to text is \"-0\" (=-A1&\"\" with A1 blank)",
+      cells(1, (0, 1, 2, "=-A1&\"\"")),
+      patterns=[{"check": "reference-value", "keys": ["negative-zero-text"], "cats": RE_CATS}])
+
+def c05(nsheets, *ops): return {"nsheets": nsheets, "ops": list(ops)}
+fixed("FX-C05-nonfinite-dependents", "C05", "ca1449f",
+      "a dependent evaluated before a cell whose result is not finite saw the raw infinity instead of the #NUM! the cell shows",
+      c05(2, I(1, 5, 5, "=SUM(ROUND(1,1000000),E1:E2)"), I(1, 4, 2, "=$E5/\"abd\"")))
+open_("F-C05-absorbed-circ", "C05",
+      "a reference cycle that passes through an error-absorbing function (IFERROR, COUNT, COUNTA, ISNUMBER, ISTEXT, ISBLANK) is not reported as #CIRC!: =COUNTA(A5:B5) typed into B5 shows 1, and cells on such a cycle keep mutually inconsistent values",
+      c05(1, I(0, 5, 2, "=COUNTA(C2:D2,A5:B5)")),
+      patterns=[{"check": "cycle-without-circ", "keys": ["absorbed-circ"], "cats": ["*"]}])
+open_("F-C05-minmax-value-arg", "C05", "same defect as F-C06-minmax-value-arg, seen by the local consistency check",
+      c05(1, I(0, 1, 1, "=MAX(TRUE)")),
+      patterns=[{"check": "stale-or-inconsistent-value", "keys": ["minmax-value-arg"], "cats": ["*"]}])
+open_("F-C05-number-text-precision", "C05", "same defect as F-C06-number-text-precision, seen by the local consistency check",
+      c05(1, I(0, 1, 1, "=1/3&\"\"")),
+      patterns=[{"check": "stale-or-inconsistent-value", "keys": ["number-text-precision"], "cats": ["*"]}])
+open_("F-C05-negative-zero-text", "C05", "same defect as F-C06-negative-zero-text, seen by the local consistency check",
+      c05(1, I(0, 1, 2, "=-A1&\"\"")),
+      patterns=[{"check": "stale-or-inconsistent-value", "keys": ["negative-zero-text"], "cats": ["*"]}])
+
 def main():
     os.makedirs(os.path.join(HERE, "findings"), exist_ok=True)
     out = []
